@@ -144,11 +144,24 @@ def run(ctx: C.Ctx):
         G.OPTS.update({"hollow": 0.0, "max_elifs": 2, "jumps": False})
     n_random = len(progs)
     progs += G.systematic_programs()          # exhaustive small chains / try / loops over {device statement, pass, print}
+    # third round: (a) statements drawn WITH repetition from a small pool (Core pin calls, device calls, writes, sleeps,
+    # assignments) in every phase and at every depth; (b) assignments whose first occurrence is inside a block (the parser
+    # promotes the name and rewrites the block body), default-valued or not, in front of compound statements or not
+    n_rep = 60 if thorough else 10
+    n_asg = 90 if thorough else 14
+    rep_from = len(progs)
+    for i in range(n_rep):
+        progs.append(G.gen_rep_program(rng, maxdepth=rng.choice([1, 2, 2, 3])))
+    progs += G.systematic_rep_programs()
+    for i in range(n_asg):
+        progs.append(G.gen_asg_program(rng, maxdepth=rng.choice([2, 3, 3, 4])))
+    progs += G.systematic_asg_programs()
+    _learn_replines(progs)
     inguard = []       # (prog index, unit, ltops, final junk, lines)
     for pi, tops in enumerate(progs):
         lt, fj = G.canonical(tops)
         inguard.append((pi, "    ", lt, fj, G.render(lt, fj, "    ")))
-        for j in range(n_lay if pi < n_prog else 2):
+        for j in range(n_lay if pi < n_prog else 2 if (pi < rep_from or thorough) else 1):
             u = rng.choice(G.UNITS)
             dens = rng.choice([0.15, 0.35, 0.6])
             sp = rng.choice([0.0, 0.5, 0.9])
@@ -241,11 +254,11 @@ def run(ctx: C.Ctx):
         lines, r = base[pi]
         if r.get("exc") or r.get("cpp") is None:
             continue
-        want = F.py_items(progs[pi])
+        want = F.py_items(progs[pi], REPLINES)
         evaluations += 1
         n_items += len(want)
         for p_, it in want:
-            kname = "stmt" if it[0] == "stmt" else it[0] + ":" + str(it[1])
+            kname = it[0] if it[0] in ("stmt", "line", "asg") else it[0] + ":" + str(it[1])
             struct_kinds[kname] = struct_kinds.get(kname, 0) + 1
             if len(p_) > 1:
                 nontrivial.add(("struct", pi, repr(p_), repr(it)))
@@ -708,17 +721,48 @@ def run(ctx: C.Ctx):
                         "Python's layout rules as modelled in Lang/PyLayout.v (validated against CPython tokenize/ast on every run)"]
 
 
+REPLINES = {}      # canonical statement text -> the C++ lines the real transpiler writes for the statement alone
+
+
+def _learn_replines(progs):
+    """reference run: every distinct repeated statement alone after the prelude; its lines = setup() minus the prelude's"""
+    texts = sorted({t for tops in progs for t in G.rep_texts(tops)} - set(REPLINES))
+    if not texts:
+        return
+    rs = C.run_impl("c07_impl.py", {"cases": [["trace", G.REP_PRELUDE]] + [["trace", G.REP_PRELUDE + [t]] for t in texts]}, timeout=3000)
+
+    def setup_of(r):
+        return [l.strip() for n, _, b in F.sections(r["cpp"] or "") if n == "setup" for l in b]
+    base = setup_of(rs[0])
+    for t, r in zip(texts, rs[1:]):
+        body = setup_of(r)
+        lines = body[len(base):] if body[: len(base)] == base else None
+        if r.get("exc") or not lines:
+            REPLINES[t] = []            # the statement alone leaves no line: nothing to demand of its repetitions
+        else:
+            REPLINES[t] = lines
+
+
 def _structure_verdict(tops, cpp):
     """None, or (class key, what, expected, observed) when the firmware does not have the script's block structure"""
-    want = F.py_items(tops)
-    got, problem = F.fw_items(cpp, F.marks_of(tops))
+    want = F.py_items(tops, REPLINES)
+    spec = {"vocab": {l for t in G.rep_texts(tops) for l in REPLINES.get(t, [])}, "vars": G.asg_names(tops)}
+    got, problem = F.fw_items(cpp, F.marks_of(tops), spec)
     if got is None:
         return ("firmware-unbalanced", "the emitted firmware is not a sequence of closed compound statements",
                 "balanced braces in every function", problem)
-    if want == got:
+    missing, extra = F.items_diff(want, got)
+    if not missing and not extra:
         return None
-    missing, extra = _msdiff(want, got), _msdiff(got, want)
     kind = (missing or extra)[0][1]
+    if kind[0] in ("line", "asg"):
+        n_m = len([x for x in missing if x[1][0] == kind[0]])
+        what = ("a statement that occurs more than once in the script (same text, e.g. the same pin configured again after another mode) is "
+                "written fewer / more times than the script makes it, or under another block - without any diagnostic" if kind[0] == "line" else
+                "an assignment of the script is missing from the block Python puts it in (or sits in another block / function / phase): "
+                "only promotion placeholders `T name = <default>;` may be added in front of a block")
+        return ("statement-" + ("lost" if n_m else "added") + ":" + ("repeated" if kind[0] == "line" else "assignment"), what,
+                {"only in the script (path, item)": F.show(missing)}, {"only in the firmware (path, item)": F.show(extra)})
     return ("block-structure:" + str(kind[0]) + (":" + str(kind[1]) if kind[0] != "stmt" else ""),
             "the firmware does not have the block structure of the script: a control-flow header is missing/added, or a statement "
             "runs under other conditions (or in another function / phase) than Python gives it",
@@ -783,6 +827,8 @@ def _shrink_structure(tops, key, budget=1500):
         size0 = sum(len(l) + 1 for l in G.render(lt0, fj0, "    "))
         cands = []
         for c in variants(tops):                      # strictly smaller scripts only: the search terminates
+            if not G.well_formed(c):
+                continue
             lt, fj = G.canonical(c)
             if sum(len(l) + 1 for l in G.render(lt, fj, "    ")) < size0:
                 cands.append(c)
